@@ -67,6 +67,9 @@
 (* the answer log gets one record per response its filter selects.         *)
 (* Negative controls: "mw_twice", "side_changes" (Content-Length dropped). *)
 (*                                                                         *)
+(* tname: the gun's target is given by name; TARGETHOST is then that name  *)
+(* (negative control "target_resolved": the resolved address instead).     *)
+(*                                                                         *)
 (* Multi-entry files: a file case f = [kind "file", fmt, ssl, preload,     *)
 (* opts, entries <<[hl, uri, body]>>]; hl are the header lines written     *)
 (* before the entry.  In uri/uripost files `[Name: value]` / `[Host: h]`   *)
@@ -129,6 +132,11 @@ Cases == UNION { { Case(f, s, FALSE, m, u, h, eh, oh, b) :
                  { Case(f, s, FALSE, m, "/", FALSE, <<e>>, oh, b) :
                      m \in MethodsOf(f), b \in BodiesOf(f), s \in SSLModes, e \in Rng(EmptyHdrs), oh \in SubSeqsOf(OptHdrs) }
                  \cup
+                 \* the gun's target given by NAME (localhost:port): Host without an ammo / option Host is that name, and so is
+                 \* the TLS server name; http gun and connect gun
+                 { Case(f, s, FALSE, m, "/", h, ho[1], ho[2], b) @@ [tname |-> TRUE] :
+                     m \in MethodsOf(f), b \in BodiesOf(f), s \in SSLModes, h \in BOOLEAN, ho \in {<< <<>>, <<>> >>, <<EntryHdrs, OptHdrs>>} }
+                 \cup
                  \* header/date middleware: default and custom header name, UTC and a named location, with and without
                  \* an entry that defines the very header, no / all options
                  UNION { { Case(f, FALSE, FALSE, m, "/", FALSE, eh, oh, b) @@ [mw |-> [name |-> hnm, loc |-> z]] :
@@ -162,6 +170,7 @@ WireHost(c) ==
     IF Variant = "host_target" THEN "TARGETHOST"
     ELSE IF c.host THEN AmmoHost(c)
     ELSE IF OptHost(c) # "" THEN OptHost(c)
+    ELSE IF Variant = "target_resolved" /\ "tname" \in DOMAIN c /\ c.tname THEN "RESOLVEDADDR"   \* negative control
     ELSE "TARGETHOST"
 
 ConfigWins(c) == Variant = "config_wins" /\ c.fmt \in {"uri", "uripost"}
@@ -207,6 +216,24 @@ Wire(c) == [scheme  |-> IF c.ssl THEN "https" ELSE "http",
 \* what the transport may add by itself (Go net/http defaults); names only
 AllowedExtra(c) == {"User-Agent", "Content-Length", "Transfer-Encoding"}
                    \cup (IF c.compress THEN {"Accept-Encoding"} ELSE {})
+
+\* Message framing.  Content-Length / Transfer-Encoding are the transport's business, but not at its discretion: a
+\* request whose body is known (every ammo body is) is sent with `Content-Length: <bytes of the body>`; an empty body
+\* goes out as `Content-Length: 0` for POST / PUT / PATCH and without the field for any other method; never chunked -
+\* with or without the answer log / httptrace looking on.  "framing_chunked" is the negative control (a body-less
+\* POST sent chunked).
+FramingHeaders(c) ==
+    IF Variant = "framing_chunked" /\ c.body = "" /\ c.method = "POST" THEN {[n |-> "Transfer-Encoding", v |-> <<"chunked">>]}
+    ELSE IF c.body # "" THEN {[n |-> "Content-Length", v |-> <<ToString(Len(c.body))>>]}
+    ELSE IF c.method \in {"POST", "PUT", "PATCH"} THEN {[n |-> "Content-Length", v |-> <<"0">>]}
+    ELSE {}
+FramingOK(c, o) == {h \in Rng(o.hdr) : h.n \in {"Content-Length", "Transfer-Encoding"}} = FramingHeaders(c)
+
+\* TLS server name: sent when the gun's target is given by NAME (tname) - the name as configured, not what it resolves
+\* to; an address literal carries none
+WireSNI(c) == IF c.ssl /\ "tname" \in DOMAIN c /\ c.tname
+              THEN (IF Variant = "target_resolved" THEN "" ELSE "TARGETHOST") ELSE ""
+SNIOK(c, o) == o.sni = WireSNI(c)
 
 \* ---- middleware / side channels ----
 IsMW(c)   == "mw" \in DOMAIN c
@@ -324,6 +351,13 @@ TunnelTransparent == IsConnect(C) =>
                         /\ Wire(C) = Wire([k \in DOMAIN C \ {"gun", "cssl", "cstatus"} |-> C[k]])
                         /\ ConnectLine(C).uri = "GUNTARGET" /\ ConnectLine(C).host = ConnectLine(C).uri
                         /\ ConnectLine(C).tls = C.cssl
+\* a target given by name is named in Host (absent an ammo / option Host) and in the TLS handshake
+NamedTarget == ("tname" \in DOMAIN C /\ C.tname) =>
+                  /\ (~C.host /\ OptHost(C) = "") => Wire(C).host = "TARGETHOST"
+                  /\ C.ssl => WireSNI(C) = "TARGETHOST"
+\* the body's length is announced, never chunked
+FramingSane == /\ \A h \in FramingHeaders(C) : h.n = "Content-Length"
+               /\ (C.body # "") => FramingHeaders(C) # {}
 \* the rest is carried unchanged, the connection goes to the target with the configured scheme
 Unchanged == /\ Wire(C).method = C.method /\ Wire(C).uri = C.uri /\ Wire(C).body = C.body
              /\ Wire(C).server = "target" /\ (Wire(C).scheme = "https") = C.ssl
